@@ -94,7 +94,7 @@ impl Property for C01 {
         }
     }
     fn required_classes(&self) -> Vec<&'static str> {
-        vec!["nesting>=2", "bound<=0-reached", "shadowing", "let-in-loop-body", "loop-in-while", "reads-device", "repeat", "bits()", "bits(k>=33)", "bits(0)", "planted-error-statements", "row-in-loop-after-error-item", "names-sub-profile", "rows-after-malformed-answer", "empty-loop-body", "planted-bound-that-cannot-be-evaluated-again"]
+        vec!["nesting>=2", "bound<=0-reached", "shadowing", "let-in-loop-body", "loop-in-while", "reads-device", "repeat", "bits()", "bits(k>=33)", "bits(0)", "planted-error-statements", "row-in-loop-after-error-item", "names-sub-profile", "rows-after-malformed-answer", "empty-loop-body", "planted-bound-that-cannot-be-evaluated-again", "planted-variable-first-bound-in-a-while-body"]
     }
     fn assumptions(&self) -> Vec<&'static str> {
         vec![
@@ -162,6 +162,39 @@ impl Property for C01 {
                 }
             }
         });
+        // In a fifth of the cases: `let wv = 1;` / `while(wv)` / `let nw = 5;` / `let wv = 0;` /
+        // `end while` / a row showing (nw) at a top-level position: `while` opens no scope, so a
+        // variable first bound in its body (which runs exactly once here) lives on behind it.
+        if pch.chance(1, 5) {
+            use crate::model::*;
+            let id = built.prog.row_count();
+            let mut first_input = true;
+            let es: Vec<Entry> = built
+                .cols
+                .iter()
+                .map(|c| {
+                    if c.role == ColRole::ExpectedOnly {
+                        Entry::X(true)
+                    } else if first_input && c.min_bits >= 3 {
+                        first_input = false;
+                        Entry::Paren(Expr::var("nw"))
+                    } else {
+                        Entry::Num(0, Radix::Dec)
+                    }
+                })
+                .collect();
+            let at = pch.upto(built.prog.stmts.len() + 1);
+            let new = vec![
+                Stmt::Let("wv".into(), Expr::lit(1)),
+                Stmt::While(Expr::var("wv"), vec![Stmt::Let("nw".into(), Expr::lit(5)), Stmt::Let("wv".into(), Expr::lit(0))]),
+                Stmt::Row(id, es),
+            ];
+            for (k, st) in new.into_iter().enumerate() {
+                built.prog.stmts.insert(at + k, st);
+            }
+            built.analysis = analyse(&built.prog);
+            out.class("planted-variable-first-bound-in-a-while-body");
+        }
         let text = built_text(&built);
         let spec = gen_spec(
             &mut Ch::new(&s[2]),
